@@ -372,7 +372,9 @@ class CloneReplayer:
             real = u.project_c()
             self.stats["calls"] += 1
             self.kinds[(c["op"], exp, "raise" if got != "ok" else "ok", after_clone)] += 1
-            dirty = real != pre_obs
+            # (SetConst on a value that already has a constant swaps the tensor: the projection stays, serializations do
+            # not - the next row must not inherit that)
+            dirty = real != pre_obs or (c["op"] == "SetConst" and got == "ok")
             if c["op"] == "Clone":
                 if got == "ok":
                     if u.shared_on_clone:
@@ -416,7 +418,7 @@ class CloneReplayer:
                 self.finding("C06", f"C06:{c['op']}:{exp}:changed:" + "+".join(d), rec, row, got=got, fields=d,
                              message=f"{c['op']} raised {got} but changed {d}")
                 continue
-            if after_clone and dirty and got == "ok":
+            if after_clone and real != pre_obs and got == "ok":
                 self.serialization_independence(u, views, pre_obs, real, rec, row, c)
             if real == exp_obs:
                 continue
